@@ -97,7 +97,7 @@ let finish_case (out : string list) =
     | [ "hang"; s ] -> (IHang, s = "same")
     | _ -> failwith "bad OUT line"
   in
-  let idefs = defs_of_lines (List.rev !alines) in
+  let idefs, undumpable = try (defs_of_lines (List.rev !alines), false) with Failure _ -> ([], true) in
   let xdefs = defs_of_lines (List.rev !xlines) in
   let m = parse_bytes is_letter_hi is_digit_hi text in
   let agrees = model_agrees m impl idefs in
@@ -109,7 +109,11 @@ let finish_case (out : string list) =
     Printf.sprintf "impl=%s model=%s impl-vs-model-defs=%s" (string_of_impl impl) (string_of_model m)
       (diff_defs idefs (model_defs m)) in
   let in_input p = let o = int_of_z p.p_offset in 0 <= o && o <= len in
-  (match !cur_mode with
+  (match (if undumpable then "undumpable" else !cur_mode) with
+   | "undumpable" ->
+       note_case (!cur_mode ^ "-undumpable") key;
+       Printf.printf "PFAIL %s || clause=Defs() holds a definition that no parseFrom completed (its dump is not a well-formed definition) ; impl=%s model=%s\n"
+         obs (string_of_impl impl) (string_of_model m)
    | "c04" ->
        note_case ~nontrivial:(xdefs <> []) "c04-file" key;
        List.iter (fun d -> note_case ~nontrivial:false ("c04-def-" ^ def_name d) "") xdefs;
